@@ -172,18 +172,8 @@ func execute(pr *pair, env *stateEnv, id *caseID) *verdict {
 	if v.Key != "" {
 		return v
 	}
-	// confirm the receive; the follower replays both momentums (ApplyBlock of the receive must agree)
-	if err := P.ProduceMomentumOnly(0); err != nil {
-		v.violate("producer-momentum-refused", fmt.Sprintf("momentum confirming the receive was refused: %v", err))
-		return v
-	}
-	v.Steps++
-	if msg := pr.syncFollower(); msg != "" {
-		v.violate("follower-disagrees", msg)
-		return v
-	}
-	v.Steps++
-	// whatever the receive sent to other contracts is processed now, together with the probe
+	// the probe is queued behind the call; the next momentum confirms the receive and the probe, then the producer works
+	// off every inbox (the probe, and whatever the receive sent to other contracts)
 	probe, err := P.Submit(probeCall(c, regimes[env.Regime]))
 	if err != nil {
 		v.violate("harness:probe-refused", fmt.Sprintf("probe call refused at send time: %v", err))
@@ -192,57 +182,41 @@ func execute(pr *pair, env *stateEnv, id *caseID) *verdict {
 	if c.Name == "spork" {
 		types.ImplementedSporksMap[probe.Hash] = true
 	}
-	rs, err := safeStep(P)
-	v.Steps++
-	if err != nil {
-		v.violate("producer-step-failed", err.Error())
-		return v
-	}
 	probeReceived := false
-	for _, r := range rs {
-		v.Gens++
-		if r.Send.Hash == probe.Hash && r.Inserted {
-			probeReceived = true
+	for round := 0; round < 2; round++ {
+		rs, err := safeStep(P)
+		v.Steps++
+		if err != nil {
+			v.violate("producer-step-failed", err.Error())
+			return v
 		}
-		if r.failed() || !r.Inserted {
-			to := contractNameOf(r.Send.ToAddress)
-			what := fmt.Sprintf("after the call, the producer cannot process the next entry of the %s inbox (send %v from %v, data %x): %s insert=%v", to, r.Send.Hash, r.Send.Address, r.Send.Data, r.describe(), r.InsErr)
-			if r.Panic != nil {
-				what += "\n" + trimStack(r.Stack)
+		for _, r := range rs {
+			v.Gens++
+			if r.Send.Hash == probe.Hash && r.Inserted {
+				probeReceived = true
 			}
-			oc := "internal-error"
-			if r.Panic != nil {
-				oc = "panic:" + r.site()
-			} else if r.InsErr != nil {
-				oc = "receive-not-insertable"
+			if r.failed() || !r.Inserted {
+				to := contractNameOf(r.Send.ToAddress)
+				what := fmt.Sprintf("after the call, the producer cannot process the next entry of the %s inbox (send %v from %v, data %x): %s insert=%v", to, r.Send.Hash, r.Send.Address, r.Send.Data, r.describe(), r.InsErr)
+				if r.Panic != nil {
+					what += "\n" + trimStack(r.Stack)
+				}
+				oc := "internal-error"
+				if r.Panic != nil {
+					oc = "panic:" + r.site()
+				} else if r.InsErr != nil {
+					oc = "receive-not-insertable"
+				}
+				v.violate("downstream:"+to+":"+oc, what)
+				return v
 			}
-			v.violate("downstream:"+to+":"+oc, what)
+		}
+		if round == 0 && !probeReceived {
+			v.violate("inbox-wedged", "a well-formed probe call sent after the call was not received within one producer step")
 			return v
 		}
 	}
-	if !probeReceived {
-		v.violate("inbox-wedged", "a well-formed probe call sent after the call was not received within one producer step")
-		return v
-	}
-	// one more producer event: receives of second-order descendants, and the follower agrees with all of it
-	rs, err = safeStep(P)
-	v.Steps++
-	if err != nil {
-		v.violate("producer-step-failed", err.Error())
-		return v
-	}
-	for _, r := range rs {
-		v.Gens++
-		if r.failed() || !r.Inserted {
-			to := contractNameOf(r.Send.ToAddress)
-			oc := "internal-error"
-			if r.Panic != nil {
-				oc = "panic:" + r.site()
-			}
-			v.violate("downstream:"+to+":"+oc, fmt.Sprintf("second producer step after the call: %s inbox entry from %v (data %x): %s insert=%v", to, r.Send.Address, r.Send.Data, r.describe(), r.InsErr))
-			return v
-		}
-	}
+	// the follower replays everything: ApplyBlock of the receive (and of the later receives) must agree
 	if msg := pr.syncFollower(); msg != "" {
 		v.violate("follower-disagrees", msg)
 		return v
